@@ -547,7 +547,7 @@ func runWorkflowJob(job *Job, res *Result) {
 	default:
 		res.Error = "unknown mode " + job.Mode
 	}
-	if job.Mode == "dpor" && strings.Contains(res.Error, "unsupported: blocking select with a send case") {
+	if job.Mode == "dpor" && unreducedOnly(res.Error) {
 		// a construct the reduced explorer is not validated for: the unreduced enumeration decides,
 		// within a delay bound (reported as not closed)
 		res.Error = ""
